@@ -1138,7 +1138,16 @@ def make_check_expr(
                             # efficient expression yielding the value of the
                             # current pith is the assignment expression
                             # assigning this value to a reusable local variable.
-                            hint_tree.pith_curr_assign_expr
+                            #
+                            # Note that this expression *MUST* be parenthesized.
+                            # Validator code embeds this expression as an
+                            # arbitrary operand (e.g., "{obj} == ..." for
+                            # "IsEqual[...]"). Since the unparenthesized
+                            # assignment operator ":=" binds less tightly than
+                            # all other operators, omitting these parens would
+                            # erroneously assign this local the result of that
+                            # operation rather than this pith.
+                            f'({hint_tree.pith_curr_assign_expr})'
                         )
                     # Else, this metahint is unignorable. In this case...
                     else:
